@@ -367,3 +367,5 @@ func describe(v Value) string {
 	}
 	return fmt.Sprintf("%T", v)
 }
+
+func ptrTo(t types.Type) types.Type { return types.NewPointer(t) }
